@@ -76,7 +76,9 @@ def shards(tier, seed):
                 h = hs[(i * 3 + k + seed) % len(hs)]
                 c = hs[(i * 5 + k + 2 + seed) % len(hs)]
                 sh.append(("sweep", conn, tr, h, c))
+            sh.append(("sweep", conn, tr, hs[k % len(hs)], 0))  # the target grants connection id 0
     sh.append(("corpus",))
+    sh += [("corpus", regime) for regime in ("3/4", "1/2", "1")]  # the same corpus with every send() accepting only part of the frame
     # the call histories of C10 (one transport fault at every I/O index): frames after a failed close / reopen etc.
     for drv in ("cip", "logix_noinit", "slc"):
         for pol in ("ok", "large08", "nofclose"):
@@ -100,7 +102,11 @@ def run_shard(shard, tier, seed):
         states, trans, _ = c10.search(rep, shard[1], shard[2], 3, 1, c10.FAULT_KINDS, frames_only=True)
         rep.sample({"histories": [shard[1], shard[2]], "replayed": trans})
     else:
+        regime = shard[1] if len(shard) > 1 else None
+        corpus.SEND_REGIME = regime
         for label, w, t in corpus.scenarios(tier):
+            if regime:
+                label = f"{label}/short-writes-{regime}"
             probs = frame_violations(w, t)
             rep.case(("corpus", label), outcome="ok" if not probs else probs[0][0], calls=len(w.messages))
             rep.add("states", len(w.messages))
@@ -108,6 +114,7 @@ def run_shard(shard, tier, seed):
                 rep.violation(f"corpus/{label.split('/')[0]}/{clause}", f"scenario {label}: {detail}", {"kind": "corpus", "label": label})
             rep.sample({"scenario": label, "frames": len(w.messages)})
             w.__exit__()
+        corpus.SEND_REGIME = None
     return rep
 
 
